@@ -756,6 +756,9 @@ def oracle(p):
     fit_checks(rng, max(10, n // 12), report, counts)
     accessor_copy_checks(rng, max(20, n // 6), report, counts)
     linked_inverse_checks(rng, max(24, n // 5), report, counts)
+    nested_composite_checks(rng, max(12, n // 10), report, counts)
+    deepcopy_checks(rng, max(16, n // 8), report, counts)
+    regrid_stride_checks(rng, max(12, n // 10), report, counts)
     # de-duplicate by key keeping the shortest history
     best = {}
     for f in fails:
@@ -920,6 +923,138 @@ def composite_checks(rng, grids, specs, n, report, counts):
             report(f"C09:SequentialTransform:{hist[-1]['op']}:raises", f"{type(e).__name__}: {str(e)[:120]}", list(hist))
 
 
+def nested_composite_checks(rng, n, report, counts):
+    """composite inside composite: outer.condition(z) / outer.grid(g) return a new transform; the leaves of the ORIGINAL
+    (at any nesting depth) keep their condition and their buffers, the new one evaluates its own state"""
+    counts["nested_checks"] = 0
+    g = Grid(size=(9, 7), align_corners=True)
+    g2 = Grid(size=(17, 13), spacing=(0.5, 0.5), align_corners=True)
+    for it in range(n):
+        acc = rng.choice(["condition", "condition", "grid"])
+        case = [{"op": "nested", "accessor": acc}]
+        try:
+            store = {}
+
+            def net(c=None, store=store):
+                return store[c]
+            store[None] = rnd_params(rng, "svf", g)
+            store[3] = rnd_params(rng, "svf", g)
+            leaf_a = make("svf", g, params=net)
+            leaf_b = make("lin", g, params=rnd_params(rng, "lin", g))
+            leaf_c = make("disp", g, params=rnd_params(rng, "disp", g))
+            inner = S.SequentialTransform(leaf_a, leaf_b)
+            outer = S.SequentialTransform(inner, leaf_c) if rng.random() < 0.5 else S.SequentialTransform(leaf_c, inner)
+            x = torch.rand((1, 6, 2), generator=torch.Generator().manual_seed(5000 + it)) * 1.2 - 0.6
+            with torch.no_grad():
+                y0 = outer(x)
+                c0 = [leaf_a.condition(), leaf_b.condition(), leaf_c.condition(), inner.condition()]
+                u0 = getattr(leaf_a, "u", None)
+                new = outer.condition(3) if acc == "condition" else outer.grid(g2)
+                counts["nested_checks"] += 1
+                c1 = [leaf_a.condition(), leaf_b.condition(), leaf_c.condition(), inner.condition()]
+                if c0 != c1 or (u0 is not None and getattr(leaf_a, "u", None) is None):
+                    report(f"C09:CompositeTransform.{acc}:nested:modifies-receiver",
+                           f"outer.{acc}(...) on a composite containing a composite changed the leaves of the original: conditions {c0!r} -> {c1!r}, "
+                           f"buffer u of a leaf {'cleared' if getattr(leaf_a, 'u', None) is None else 'kept'}", case)
+                    continue
+                y1 = outer(x)
+                d = maxdiff(y1, y0)
+                if d > 1e-6:
+                    report(f"C09:CompositeTransform.{acc}:nested:modifies-receiver", f"the original maps points differently by {d:.3g} afterwards", case)
+                    continue
+                if acc == "condition":
+                    tw_a = make("svf", g, params=store[3].clone())
+                    tw_in = S.SequentialTransform(tw_a, fresh_twin(leaf_b, "lin"))
+                    tw = S.SequentialTransform(tw_in, fresh_twin(leaf_c, "disp")) if list(outer.transforms())[0] is inner else \
+                        S.SequentialTransform(fresh_twin(leaf_c, "disp"), tw_in)
+                    d = maxdiff(new(x), tw(x))
+                    if d > 1e-5:
+                        report("C09:CompositeTransform.condition:nested:new-transform-not-conditioned",
+                               f"the transform returned by outer.condition(3) differs from one built with the re-conditioned leaves by {d:.3g}", case)
+        except Exception as e:  # noqa
+            report(f"C09:CompositeTransform.{acc}:nested:raises", f"{type(e).__name__}: {str(e)[:120]}", case)
+
+
+def deepcopy_checks(rng, n, report, counts):
+    """copy.deepcopy(t) is independent of t, including the buffers t.update() cached (u, v, p): an in-place optimiser step
+    on t's parameters leaves tensor() / disp() / v of the copy unchanged, before and after the copy's next update()"""
+    counts["deepcopy_checks"] = 0
+    for it in range(n):
+        kind = rng.choice(["disp", "svf", "disp", "svf", "ffd", "lin"])
+        g = Grid(size=(9, 7), align_corners=rng.random() < 0.5 or kind == "ffd")
+        case = [{"op": "new", "kind": kind, "params": "Parameter(requires_grad)"}, {"op": "update"}, {"op": "deepcopy"}, {"op": "edit"}]
+        try:
+            t = make(kind, g, params=Parameter(rnd_params(rng, kind, g)))
+            x = torch.rand((1, 6, 2), generator=torch.Generator().manual_seed(3000 + it)) * 1.2 - 0.6
+            t.update()                 # autograd enabled: the cached fields are non-leaf tensors
+            c = copy.deepcopy(t)
+            with torch.no_grad():
+                before = [c.tensor().clone()] + ([c.disp().clone()] if kind != "lin" else []) + \
+                    ([c.v.clone()] if hasattr(c, "v") else [])
+                t.data().add_(rnd_params(rng, kind, g, amp=0.05))
+                after = [c.tensor()] + ([c.disp()] if kind != "lin" else []) + ([c.v] if hasattr(c, "v") else [])
+                counts["deepcopy_checks"] += 1
+                d = max(maxdiff(a, b) for a, b in zip(after, before))
+                if d > 1e-7:
+                    report(f"C09:SpatialTransform.__deepcopy__:{'cached-buffer' if kind != 'lin' else 'parameters'}-follows-original",
+                           f"after an in-place edit of the original's parameters, tensor()/disp()/v of the deep copy changed by {d:.3g}", case)
+                    continue
+                y = c(x)
+                tw = fresh_twin(c, kind)
+                d = maxdiff(y, tw(x))
+                if d > 1e-5 or maxdiff(c.data(), t.data()) < 1e-9:
+                    report("C09:SpatialTransform.__deepcopy__:copy-not-independent",
+                           f"deep copy evaluates {d:.3g} away from its own parameters / shares the edited parameters", case)
+        except Exception as e:  # noqa
+            report(f"C09:SpatialTransform.__deepcopy__:{kind}:raises", f"{type(e).__name__}: {str(e)[:120]}", case)
+
+
+def regrid_stride_checks(rng, n, report, counts):
+    """dense vector field models with stride > 1 (parameters on a coarser lattice): grid_() / grid() to a grid with the
+    OTHER align_corners flag (or another lattice of the domain) preserves the world-space deformation of an affine field"""
+    counts["regrid_stride_checks"] = 0
+    for it in range(n):
+        kind = rng.choice(["disp", "disp", "svf"])
+        flag = rng.random() < 0.5
+        stride = rng.choice([2, 2, 3])
+        g = Grid(size=(25, 21), align_corners=flag)
+        how = rng.choice(["grid_", "grid"])
+        case = [{"op": "new", "kind": kind, "stride": stride, "align_corners": flag}, {"op": how, "align_corners": not flag}]
+        try:
+            cls = KINDS[kind]
+            dg = cls(g, params=None, stride=stride).data_grid()
+            co = dg.coords()
+            A = torch.tensor([[rng.uniform(-0.06, 0.06) for _ in range(2)] for _ in range(2)])
+            bb = torch.tensor([rng.uniform(-0.04, 0.04) for _ in range(2)])
+            p = (torch.einsum("ij,yxj->yxi", A, co) + bb).permute(2, 0, 1).unsqueeze(0).contiguous()
+            t = cls(g, params=p, stride=stride)
+            from deepali.data.flow import FlowFields
+
+            def world_field(tr):
+                # displacement field of a DDF; VELOCITY field of an SVF (its exponential adds boundary effects of its own)
+                tr.update()
+                if kind == "disp":
+                    return tr.flow(g).axes("world").tensor()
+                return FlowFields(tr.v, grid=tr.grid(), axes=tr.axes()).sample(g).axes("world").tensor()
+            with torch.no_grad():
+                w0 = world_field(t)
+                g2 = g.align_corners(not flag)
+                t2 = t.grid(g2) if how == "grid" else t.grid_(g2)
+                w1 = world_field(t2)
+            counts["regrid_stride_checks"] += 1
+            # lattice points of the new parameter lattice outside the hull of the old one are extrapolated (border
+            # padding); that reaches one coarse cell inwards, so compare beyond two coarse cells from the boundary
+            m = 2 * stride + 2
+            d = float((w1 - w0)[..., m:-m, m:-m].abs().max())
+            tol = 2e-4
+            if d > tol:
+                report("C09:DenseVectorFieldTransform.grid_:stride>1:align_corners-flip:world-deformation-changed",
+                       f"{cls.__name__}(stride={stride}).{how}(grid with align_corners={not flag}): world-space displacement of an affine field "
+                       f"changed by {d:.3g} in the interior (tolerance {tol:.3g})", case)
+        except Exception as e:  # noqa
+            report(f"C09:DenseVectorFieldTransform.grid_:stride>1:raises", f"{type(e).__name__}: {str(e)[:120]}", case)
+
+
 def linked_inverse_checks(rng, n, report, counts):
     """an inverse created with inverse(link=True) / .inv reads the parameters of the transform it was created from: after
     that transform's parameters are REPLACED (data_) or updated in place, a call of the inverse evaluates the new
@@ -1055,7 +1190,13 @@ def fit_checks(rng, n, report, counts):
             with torch.no_grad():
                 d1 = maxdiff(t.disp(), target)
                 tw = fresh_twin(t, kind) if kind != "ffd" else KINDS["ffd"](g, stride=2, params=t.data().detach().clone())
+                # right after fit(): disp()/tensor() without an intervening update() must already be those of the fitted parameters
+                d0 = max(maxdiff(t.disp(), tw.disp()), maxdiff(t.tensor(), tw.tensor()))
                 d2 = maxdiff(t(x), tw(x))
+            if d0 > 1e-6:
+                report(f"C09:SpatialTransform.fit:buffers-stale-after-last-step",
+                       f"{type(t).__name__}: disp()/tensor() right after fit() differ by {d0:.3g} from the fitted parameters "
+                       "(the buffered field was computed before the last optimizer step)", case)
             counts["fit_checks"] += 1
             tol = 1e-6 if kind == "disp" else 0.02
             if d1 > tol:
